@@ -11,7 +11,7 @@ import (
 
 	"github.com/google/jsonschema-go/jsonschema"
 
-		"verif/internal/gen"
+	"verif/internal/gen"
 )
 
 // A scenario is a small closed concurrent harness: setup builds fresh shared
@@ -85,10 +85,10 @@ type defStruct struct {
 
 func scenarios() []scenario {
 	valInsts := []string{
-		`{"k":"a","n":[1,2],"x1":3}`,       // valid through num.json
-		`{"k":"b","s":["p"],"u":[1,"1"]}`,  // valid through str.json
-		`{"k":"a","n":["p"]}`,              // invalid: string item under the integer anchor
-		`{"k":"b","s":[1],"zz":1}`,         // invalid
+		`{"k":"a","n":[1,2],"x1":3}`,      // valid through num.json
+		`{"k":"b","s":["p"],"u":[1,"1"]}`, // valid through str.json
+		`{"k":"a","n":["p"]}`,             // invalid: string item under the integer anchor
+		`{"k":"b","s":[1],"zz":1}`,        // invalid
 	}
 	defSchema := `{"type":"object","properties":{"a":{"default":1},"b":{"default":{"c":2},"properties":{"c":{"default":3},"d":{"default":[1]}}},"r":{"default":9}},"required":["r"]}`
 	var out []scenario
